@@ -6,6 +6,7 @@ import (
 	"math"
 	"math/rand"
 	"strings"
+	"time"
 
 	"codeberg.org/TauCeti/mangle-go/ast"
 	"codeberg.org/TauCeti/mangle-go/functional"
@@ -24,6 +25,10 @@ type c09Case struct {
 	Atom   *gen.AtomV   `json:"atom,omitempty"`
 	Term   *gen.TermV   `json:"term,omitempty"`
 	Clause *gen.ClauseV `json:"clause,omitempty"`
+	// TZ != 0: the library's default timezone (ast.SetDefaultTimezone, used by the Date/DateTime
+	// helper constructors) is set to a fixed zone with this offset while the case runs; printed
+	// timestamps are UTC by definition, so the configuration must not change any round trip.
+	TZ int `json:"tz,omitempty"`
 }
 
 type c09 struct{}
@@ -70,7 +75,11 @@ func (c09) Gen(r *rand.Rand, tier string, i int) any {
 		return c09Case{Kind: "type", Term: &t}
 	default:
 		c := gen.RandClauseV(r, gen.ConstOpts{MaxDepth: 2})
-		return c09Case{Kind: "clause", Clause: &c}
+		cs := c09Case{Kind: "clause", Clause: &c}
+		if r.Intn(4) == 0 {
+			cs.TZ = []int{19800, -28800, 3600, 45900}[r.Intn(4)]
+		}
+		return cs
 	}
 }
 
@@ -182,6 +191,11 @@ func (c09) Run(cs any) core.Result {
 	raw, _ := json.Marshal(c)
 	res.Key = core.HashKey(string(raw))
 	res.Ob("kind:"+c.Kind, 1)
+	if c.TZ != 0 {
+		ast.SetDefaultTimezone(time.FixedZone("fixed", c.TZ))
+		defer ast.SetDefaultTimezone(time.UTC)
+		res.Ob("cases_under_non_utc_default_timezone", 1)
+	}
 	switch c.Kind {
 	case "const":
 		v := *c.Val
